@@ -10,6 +10,7 @@ OVERLAY = {
     "k8s_export.go": "pkg/k8s/zz_verif_export.go",
     "podeni_export.go": "pkg/controller/pod-eni/zz_verif_export.go",
     "webhook_export.go": "pkg/controller/webhook/zz_verif_export.go",
+    "ipamnode_export.go": "pkg/controller/multi-ip/node/zz_verif_export.go",
 }
 
 NOT_APPLICABLE = {}
@@ -213,6 +214,53 @@ PROPS = {
         "level_text": "Theorems over all label sequences incl. faults: cloud-assigned addresses are always tracked (no orphan); a Deleting entry stays until an unassign/delete is confirmed; after a truthful sync valid entries = cloud's; "
                       "create/assign begin only with the back-off deadline in the past and a needy request is refused meanwhile; owner => holder or in-flight request (per interface). Tied as C01.",
         "level_note": "Trusted as C01. Partial: the watermark band (liveness) is not proved; Manager-level drop of a delivered response (S6) is outside the per-interface model and is judged on the implementation's snapshots.",
+    },
+    "C02": {
+        "pkg": "./ipam/", "test": "TestVerif_Ipam", "n_quick": 400, "n_thorough": 12000, "env": {"VERIF_PROP": "C02"},
+        "rule": "3/4 single binding passes (buildIPMap + releasePodNotFound + assignIPFromLocalPool) over generated records: 1..3 interfaces (InUse / Attaching / Deleting, secondary / trunk / high-performance), "
+                "0..5 addresses per family (Valid / Deleting, primary), mostly well-formed bindings with a share of partially bound pods and 1/12 malformed records, 0..6 pods (fresh, reporting addresses of one "
+                "interface, reporting unknown addresses, RDMA), NodeRuntime readable or not; 1/4 histories of 20..50 events driving the real ReconcileNode.Reconcile against a simulated cloud and controller-runtime's "
+                "fake API server (pods come and go, runtime reports, cloud faults, drift, controller restarts, update conflicts, virtual time). The model follows the observed outcome of Go's map order and must "
+                "reproduce the record; the clauses 201/202 are judged on every record. non-trivial = a binding was created; distinct = distinct input vectors",
+        "trusted": ["controller-runtime fake client (objects, status subresource, field index, interceptors for injected failures)", "simulated cloud (harness/ipam/history_test.go fakeCloud) and vswitch pool over it",
+                    "testing/synctest virtual clock (go1.26.8)", "the harness' encoding of records, pods and NodeRuntime reports as integers (harness/ipam, IpamRun.v decoders)"],
+        "modelled": ["map iteration order is an explicit choice read off the observed outcome (IpamModel.bind_all); completeness of the pick loop (a pod left without an address although one was free) is not checked",
+                     "syncWithAPI / addIP / gc are not modelled: histories are judged by the clauses on what the implementation published after each Reconcile"],
+        "assumptions": ["addresses are unique within the record per family and interface ids are non-zero (uniq, ids_ok)", "a pod reports only addresses of one interface (take_consistent) — see c02_pass_is_legal_steps_partial"],
+        "level_text": "Theorems: a legal step (pick of a valid unowned address on an attached interface of the pod's kind and of the pod's other interface; re-adoption of exactly the reported address) keeps "
+                      "'one address per family per pod, both on one interface'; every record reachable by such steps is well formed; the modelled pass over fresh pods is such a sequence for any map order; "
+                      "the release pass only shrinks ownership; the checker's boolean implies the invariant. Tied by replaying the real loops on generated records and the real Reconcile on histories.",
+        "level_note": "Trusted: Coq kernel, extraction, driver, harness. For passes with reporting pods the theorem gives legality of each step but keeps the consistency of the reported addresses as a hypothesis (partial); judged on the implementation by clause 201.",
+    },
+    "C03": {
+        "pkg": "./ipam/", "test": "TestVerif_Ipam", "n_quick": 400, "n_thorough": 12000, "env": {"VERIF_PROP": "C03"},
+        "rule": "1/4 binding passes, 1/4 trimming of one interface (releaseUnUsedIP with 0..8 to delete), 1/2 Reconcile histories as for C02 with pod deletions followed or not by the daemon's `deleted` report, "
+                "reports that arrive late or for another uid, NodeRuntime unreadable, controller restarts and pool trimming. Clauses: 301 a binding is kept unless pod gone + report (or no uid) at the time of the pass, "
+                "302 it is dropped when they hold and the pass succeeded, 303 every UnAssign / Detach / Delete call is judged against the owners before the pass and the bindings after it, 304 trimming keeps owners. "
+                "non-trivial = a bound address whose pod is gone was seen by a pass; distinct = distinct input vectors",
+        "trusted": ["as C02"],
+        "modelled": ["the daemon's side (who writes `deleted` and when: pkg/eni/crdv2.go, daemon/daemon.go:661-715) is represented by scripted NodeRuntime updates: the third sentence of the property is not decided here",
+                     "an address that vanished in the cloud before the pass may leave the record (drift exemption gone_of)"],
+        "assumptions": [],
+        "level_text": "Theorems: the release pass changes an entry only by clearing its owner, only when the runtime object was readable, the pod is absent and (no uid recorded or final report = deleted); under those "
+                      "conditions it does clear it; the binding pass never touches an owned entry; trimming marks only unowned non-primary valid addresses and gives up an interface only when nothing on it is owned. "
+                      "Tied as C02; cloud calls are judged on the call log of the real Reconcile.",
+        "level_note": "Trusted: Coq kernel, extraction, driver, harness. Partial: the daemon's reporting discipline (third sentence) is outside the model; handleStatus (which addresses are unassigned) is judged on the call log only.",
+    },
+    "C08": {
+        "pkg": "./ipam/", "test": "TestVerif_Ipam", "n_quick": 400, "n_thorough": 12000, "env": {"VERIF_PROP": "C08"},
+        "rule": "1/2 planning cases (getEniOptions + validateENI + assignEniWithOptions: flavor 0..3 secondary / 0..1 trunk / 0..2 RDMA, per-interface limit 2..9, records of 0..4 interfaces in all states, demand 0..24 + 0..5), "
+                "1/4 trimming, 1/4 Reconcile histories with injected cloud faults (error before effect, error after effect, quota code) on create / attach / assign / unassign / detach / delete, status-update conflicts, "
+                "drift and restarts, each followed by a healthy tail of 13 rounds (full synchronisation due, 130 s apart). Clauses: 801 every request within per-interface limit and flavor, 802 a created interface is "
+                "deleted, recorded, or attached-and-resynchronised, 803/804 the tail is a fixed point, 805 record = cloud at the end, 806 eligible pods are bound when capacity is spare, 811 plan within limits. "
+                "non-trivial = a plan asked for addresses or a history made a cloud call; distinct = distinct input vectors",
+        "trusted": ["as C02; a Create call that reports failure is assumed to have created nothing (the client wrapper's idempotent retry)"],
+        "modelled": ["only the planning arithmetic is modelled and proved; convergence, roll-back and resynchronisation are decided on histories of the real Reconcile (no theorem about the closed loop)",
+                     "vSwitch selection and exhaustion beyond a quota error code are not driven"],
+        "assumptions": [],
+        "level_text": "Theorems (partial): every slot of a plan asks for at most what the per-interface limit leaves (new interface: at most the limit); the number of slots never exceeds max(flavor total, interfaces present) "
+                      "when the record holds no more trunk interfaces than the flavor lists (hypothesis shown necessary by a witness). The model's plan is compared with the real one on every planning case.",
+        "level_note": "Trusted: Coq kernel, extraction, driver, harness. Partial: fixed point, roll-back and agreement after resynchronisation are checked on the implementation's histories, not proved.",
     },
     "C04": {
         "pkg": "./svc/", "test": "TestVerif_Svc", "n_quick": 400, "n_thorough": 20000, "env": {"VERIF_PROP": "C04"},
@@ -740,6 +788,142 @@ def sig_C05(ins, outs, extra=""):
 def sig_C09(ins, outs, extra=""):
     code = _svc_why(extra)
     return "C09:clause%d" % code
+
+
+def _ipam_kind(ins):
+    return int(ins[0]) if ins else 0
+
+
+def _ipam_hist_cfg(ins):
+    # 4 on4 on6 trunk rdma per4 per6 fs ft fr min max
+    return dict(zip(("on4", "on6", "trunk", "rdma", "per4", "per6", "fs", "ft", "fr", "min", "max"), [int(x) for x in ins[1:12]]))
+
+
+def sig_C02(ins, outs, extra=""):
+    code, idx = _why(extra)
+    return "C02:kind%d:clause%d" % (_ipam_kind(ins), code)
+
+
+def sig_C03(ins, outs, extra=""):
+    code, idx = _why(extra)
+    return "C03:kind%d:clause%d" % (_ipam_kind(ins), code)
+
+
+def _ipam_passes(outs):
+    """parse the per-round blocks of a history's output: list of dicts(err, confl, calls=[[kind, eni, n, ok, ...]])"""
+    o = [int(x) for x in outs]
+    i = 0
+    res = []
+    def cloud(i):
+        n = o[i]; i += 1
+        for _ in range(n):
+            i += 2
+            k = o[i]; i += 1 + k
+            k = o[i]; i += 1 + k
+        return i
+    try:
+        while i < len(o) and o[i] == 77:
+            d = {"err": o[i + 1], "confl": o[i + 2], "restarted": o[i + 3], "calls": []}
+            i += 4
+            np_ = o[i]; i += 1 + 5 * np_
+            nrt = o[i]; i += 1
+            if nrt > 0:
+                i += 2 * nrt
+            i = cloud(i)
+            nc = o[i]; i += 1
+            for _ in range(nc):
+                m = o[i]; d["calls"].append(o[i + 1:i + 1 + m]); i += 1 + m
+            ne = o[i]; i += 1
+            for _ in range(ne):
+                i += 4
+                for _f in range(2):
+                    k = o[i]; i += 1 + 5 * k
+            i = cloud(i)
+            res.append(d)
+    except IndexError:
+        pass
+    return res
+
+
+def sig_C08(ins, outs, extra=""):
+    code, idx = _why(extra)
+    if _ipam_kind(ins) == 4 and code in (803, 804):
+        c = _ipam_hist_cfg(ins)
+        ps = _ipam_passes(outs)
+        at = ps[idx] if 0 <= idx < len(ps) else (ps[-1] if ps else {"calls": []})
+        kinds = sorted({call[0] for call in at["calls"]})
+        # the last rounds only assign addresses (min refill) and unassign them again (max trim)
+        churn = bool(kinds) and set(kinds) <= {3, 4, 5, 6}
+        if churn and c.get("rdma") and c.get("fr", 0) > 0:
+            return "C08:fixed-point:erdma-node:idle-address-of-the-RDMA-interface-counts-for-the-max-band-but-not-for-the-min-refill"
+        if churn and c.get("on4") and c.get("on6") and set(kinds) <= {4, 6}:
+            return "C08:fixed-point:dual-stack:idle-primary-IPv4-addresses-count-for-the-max-band-and-trim-the-IPv6-refill"
+        if churn:
+            return "C08:fixed-point:idle-addresses-spread-over-interfaces:refill-subtracts-them-interface-by-interface-trim-counts-them-all"
+    return "C08:kind%d:clause%d" % (_ipam_kind(ins), code)
+
+
+def _ipam_nt(ins, outs):
+    ins = [int(x) for x in ins]
+    outs = [int(x) for x in outs]
+    k = _ipam_kind(ins)
+    if k == 1:
+        return any(outs[j + 3] > 0 or outs[j + 4] > 0 for j in range(0, len(outs) - 5, 6))
+    if k == 2:
+        return bool(outs) and outs[0] > 0
+    if k == 3:
+        i = ins.index(-555) if -555 in ins else len(ins)
+        return ins[:i] != [] and outs != [] and True
+    return 77 in outs
+
+
+def nt_C02(ins, outs):
+    return _ipam_nt(ins, outs)
+
+
+def nt_C03(ins, outs):
+    return _ipam_nt(ins, outs)
+
+
+def nt_C08(ins, outs):
+    return _ipam_nt(ins, outs)
+
+
+def _dist_ipam(cases):
+    names = {1: "plan", 2: "trim", 3: "bind_pass", 4: "reconcile_history"}
+    d = {"cases": len(cases), "kinds": {v: 0 for v in names.values()}, "reconcile_rounds": 0, "cloud_calls": 0, "failed_cloud_calls": 0,
+         "rounds_with_error": 0, "update_conflicts": 0, "history_events": {}}
+    ev = {1: "add_pod", 2: "delete_pod", 3: "runtime_report", 4: "reconcile", 5: "cloud_drift", 6: "controller_restart", 7: "advance_time", 8: "update_conflict", 9: "runtime_readable_toggle"}
+    for _, ins, outs in cases:
+        ins = [int(x) for x in ins]
+        outs = [int(x) for x in outs]
+        k = _ipam_kind(ins)
+        d["kinds"][names.get(k, "plan")] = d["kinds"].get(names.get(k, "plan"), 0) + 1
+        if k == 4:
+            try:
+                n = ins[12]; i = 13
+                for _ in range(n):
+                    m = ins[i]; r = ins[i + 1:i + 1 + m]; i += 1 + m
+                    if r:
+                        d["history_events"][ev.get(r[0], "?")] = d["history_events"].get(ev.get(r[0], "?"), 0) + 1
+                        if r[0] == 4 and len(r) > 1 and r[1] > 0:
+                            d["history_events"]["reconcile_with_fault"] = d["history_events"].get("reconcile_with_fault", 0) + 1
+            except Exception:
+                pass
+            d["reconcile_rounds"] += sum(1 for x in outs if x == 77)
+    return d
+
+
+def dist_C02(cases):
+    return _dist_ipam(cases)
+
+
+def dist_C03(cases):
+    return _dist_ipam(cases)
+
+
+def dist_C08(cases):
+    return _dist_ipam(cases)
 
 
 def nt_C04(ins, outs):
